@@ -436,6 +436,19 @@ def native_power_wrappers(ctx):
     return last
 
 
+def native_power_tx(ctx):
+    """transactions committed with an explicit sync-level durability survive the loss of everything that was not synced (both transactional databases; manual persist, so nothing else flushes)"""
+    last = (False, None, 'not run')
+    for kind in ('opt', 'single'):
+        for i, st in enumerate((['w', 'T:syncall', 'x', 'w', 'T:syncdata', 'x'], ['T:buffer', 'x', 'w', 'T:syncall', 'x'])):
+            for manual in (1, 0):
+                r = crashimg.run_crash_workload(ctx, st, f'power-tx-{kind}-{i}-{manual}', manual=manual, power_loss=True, kind=kind)
+                if r[0]:
+                    return r
+                last = r
+    return last
+
+
 def native_proc(ctx):
     last = (False, None, 'not run')
     for i, (st, manual) in enumerate(((['w', 'x', 'w', 'x', 'b', 'x'], 0), (['w', 'p:buffer', 'x', 'w', 'x', 'p:buffer', 'x'], 1), (['b', 'x', 'w', 'x'], 0))):
@@ -458,6 +471,13 @@ def run(ctx):
     check_db_persist(ctx)
     check_batch_durability(ctx)
     check_persist_wrappers(ctx)
+    # a transaction's durability level must reach the batch it commits (the base commit builds that batch: C08's obligation, decided here with a power-loss replay)
+    from . import c08
+    c08.check_commit(ctx, confirm=lambda: native_power_tx(ctx))
+    # durable data is appended behind whatever recovery left in the journal: a torn batch must be cut away completely (C03's obligation), or the next recovery stops at its
+    # leftover and discards everything persisted since
+    from . import c03
+    c03.check_cuts(ctx, c03.SHAPES_QUICK[0], 0)
     validate_translator(ctx)
     check_auto_persist(ctx)
     check_cursor_model(ctx, recs)
